@@ -22,6 +22,17 @@ let () = iter_lines (fun line ->
       | "subia" -> pair (sc_uint128_sub_inplace_aliased a.(0) a.(1))
       | "oria" -> pair (sc_uint128_bitwise_or_inplace_aliased a.(0) a.(1))
       | "andia" -> pair (sc_uint128_bitwise_and_inplace_aliased a.(0) a.(1))
+      | "shrio" -> pair (sc_uint128_shift_right_inres a.(0) a.(1) a.(2))
+      | "shlio" -> pair (sc_uint128_shift_left_inres a.(0) a.(1) a.(2))
+      | "negio" -> pair (sc_uint128_bitwise_neg_ares a.(0) a.(1))
+      | "orra" -> pair (sc_uint128_bitwise_or_ares a.(0) a.(1) a.(2) a.(3))
+      | "orrb" -> pair (sc_uint128_bitwise_or_bres a.(0) a.(1) a.(2) a.(3))
+      | "orrab" -> pair (sc_uint128_bitwise_or_abres a.(0) a.(1))
+      | "andra" -> pair (sc_uint128_bitwise_and_ares a.(0) a.(1) a.(2) a.(3))
+      | "andrb" -> pair (sc_uint128_bitwise_and_bres a.(0) a.(1) a.(2) a.(3))
+      | "andrab" -> pair (sc_uint128_bitwise_and_abres a.(0) a.(1))
+      | "addab" -> pair (sc_uint128_add_ab a.(0) a.(1) z0 z0)
+      | "subab" -> pair (sc_uint128_sub_ab a.(0) a.(1) z0 z0)
       | "neg" -> pair (sc_uint128_bitwise_neg a.(0) a.(1) z0 z0)
       | "shr" -> pair (sc_uint128_shift_right a.(0) a.(1) a.(2) z0 z0)
       | "shl" -> pair (sc_uint128_shift_left a.(0) a.(1) a.(2) z0 z0)
